@@ -103,6 +103,21 @@ def container_ids(x, out=None, depth=0):
     return out
 
 
+def dump_generated(x, depth=0):
+    """dump of a generated value: datetime / date / UUID leaves come from the clock and from
+    os.urandom (Generator.visit_datetime / visit_date / visit_uuid4 read them directly, they do not go
+    through the random tape), so only their type is compared"""
+    import datetime as _dt
+    import uuid as _uuid
+    if type(x) is list:
+        return ("L", tuple(dump_generated(y, depth + 1) for y in x))
+    if type(x) is dict:
+        return ("D", tuple((dump(k), dump_generated(v, depth + 1)) for k, v in x.items()))
+    if isinstance(x, (_dt.date, _uuid.UUID)):
+        return ("clock-or-entropy", type(x).__name__)
+    return dump(x)
+
+
 def clone(x):
     """fresh lists / dicts, everything else (schemas, scalars) shared"""
     if type(x) is list:
@@ -116,12 +131,14 @@ def err_fp(errors):
     return tuple((type(e).__name__, repr(e.path)) for e in errors)
 
 
-def fingerprint(status, r):
+def fingerprint(status, r, generated=False):
     """outcome of an operation as plain comparable data"""
     if status != "ok":
         return ("exc", status)
+    if generated:
+        return ("ok", "generated", dump_generated(r))
     if isinstance(r, Schema):
-        return ("ok", "schema", dump(r), repr(r))
+        return ("ok", "schema") + snapshot_cheap(r)
     if type(r).__name__ == "ValidationResult":
         return ("ok", "result", err_fp(r.get_errors()))
     return ("ok", "value", dump(r))
@@ -411,7 +428,7 @@ def snapshot_full(s, probes):
             verdicts.append("!" + type(e).__name__)
     try:
         with tapemod.scripted(tapemod.Tape(FAKE_TAPE)):
-            g = dump(fake(s))
+            g = dump_generated(fake(s))
     except RecursionError:
         g = "!RecursionError"
     except Exception as e:  # noqa
@@ -489,7 +506,7 @@ class Runner:
             status, r = "Undefined", None      # (only in shrunk programs)
         else:
             status, r = execute(op, self.env)
-        fp = fingerprint(status, r)
+        fp = fingerprint(status, r, op["op"] == "fake")
         self.fps.append(fp)
         if status != "ok":
             self.stats["raised"] += 1
@@ -500,6 +517,18 @@ class Runner:
                     raise Failure("arg-mutated", self.step_no, {"arg": u, "what": "contents of an argument changed"})
                 if container_ids(self.env[u]) != ids0:
                     raise Failure("arg-mutated", self.step_no, {"arg": u, "what": "identity of a nested container changed"})
+        if clones is not None and any(type(v) in (list, dict) for v in clones.values()):
+            # the same operation on equal inputs (clones taken before it ran): equal outcome
+            self.stats["twins"] = self.stats.get("twins", 0) + 1
+            env2 = dict(self.env)
+            env2.update(clones)
+            st2, r2 = execute(op, env2)
+            fp2 = fingerprint(st2, r2, op["op"] == "fake")
+            if fp2 != fp:
+                raise Failure("replay-differs", self.step_no,
+                              {"replayed": op_source(op), "what": "same operation on clones of its container arguments",
+                               "first": repr(fp)[:400], "again": repr(fp2)[:400]})
+            clones = {u: clone(v) for u, v in clones.items()}
         out = op.get("out")
         if status == "ok" and out:
             if isinstance(r, Schema) and op["op"] != "getitem":
@@ -522,7 +551,7 @@ class Runner:
         env2 = dict(self.env)
         env2.update({u: clone(v) for u, v in clones.items()})
         status, r = execute(op, env2)
-        fp = fingerprint(status, r)
+        fp = fingerprint(status, r, op["op"] == "fake")
         if fp != fp0:
             raise Failure("replay-differs", self.step_no,
                           {"replayed": op_source(op), "first": repr(fp0)[:400], "again": repr(fp)[:400]})
@@ -936,13 +965,26 @@ class HistoryGen:
                  ("decl_dict", 7), ("decl_any", 3), ("decl_list_type", 2), ("refine", 8), ("add", 4), ("or", 3),
                  ("subst", 9), ("from_native", 6), ("make_required", 4), ("validate", 5), ("errors", 3),
                  ("validate_or_fail", 2), ("repr", 2), ("represent", 1), ("iter", 2), ("contains", 2),
-                 ("getitem", 4), ("eq", 2), ("fake", 5), ("mutate", 30)]
+                 ("getitem", 4), ("eq", 2), ("fake", 5), ("mutate", 30), ("again", 8)]
         if full:
             table = [(k, w if k in ("mutate", "validate", "errors", "repr", "iter", "contains", "getitem", "eq",
-                                    "fake", "validate_or_fail", "represent", "new_value") else max(1, w // 6))
+                                    "fake", "validate_or_fail", "represent", "new_value", "again") else max(1, w // 6))
                      for k, w in table]
         k = r.choices([t[0] for t in table], [t[1] for t in table])[0]
         return getattr(self, "mk_" + k)()
+
+    def mk_again(self):
+        """repeat an earlier operation on the same objects (mutations may have happened in between)"""
+        cands = [op for op, _, _ in self.rn.log if op["op"] not in ("leaf",)]
+        if not cands:
+            return None
+        withc = [op for op in cands if any(type(self.rn.env.get(u)) in (list, dict) for u in uses_of(op))]
+        op = dict(self.r.choice(withc if withc and self.r.random() < 0.8 else cands))
+        if op.get("out"):
+            op["out"] = self.fresh(op["out"][0])
+            if op["out"][0] == "c":
+                self.conts.append(op["out"])
+        return op
 
     def mk_leaf(self):
         src = gen.gen_schema_src(r := self.r, r.choice([0, 1, 1, self.depth]))
